@@ -91,6 +91,11 @@ func (w *regWorld) regCheck(tag string) {
 			seen[p]++
 		}
 		t := w.r.tables[id]
+		if t != nil {
+			vTrace(tag+" "+id+" count", int64(t.PlayerCount))
+			vTrace(tag+" "+id+" real", int64(len(ms)))
+			vTrace(tag+" "+id+" required", int64(t.Required))
+		}
 		vAssert(t != nil, "C09.live-table-known-to-regulator"+tag)
 		if t != nil {
 			vAssert(t.PlayerCount == len(ms), "C09.table-count-is-real-count"+tag)
@@ -135,6 +140,8 @@ func (w *regWorld) sync(id string, out int) bool {
 	ms = ms[out:]
 	w.members[id] = ms
 	rel, incoming, err := w.r.SyncState(id, out)
+	vTrace("sync "+id+" rel", int64(rel))
+	vTrace("sync "+id+" incoming", int64(len(incoming)))
 	vAssert(err == nil, "C09.sync-of-live-table-accepted")
 	busy := false
 	if w.r.GetTable(id) == nil {
